@@ -212,6 +212,51 @@ ProxySwap(k, i, j, ni, nj) ==
     /\ IsOpt /\ i # j /\ i < Len(obj[k]) /\ j < Len(obj[k])
     /\ Do("ProxySwap", k, [i |-> i, j |-> j], SetAt(SetAt(obj[k], i, ni), j, nj), Void)
 
+
+(* Standard algorithms over the iterators: runs of reads and writes through the proxy references.             *)
+(*   copy    : std::copy(other.cbegin()+i, other.cbegin()+j, begin()+m)        (assignments proxy = const proxy) *)
+(*   copybwd : std::copy_backward(begin()+i, begin()+j, begin()+j+m)           (assignments proxy = proxy, overlapping) *)
+(*   reverse : std::reverse(begin()+i, begin()+j)        rotate : std::rotate(begin()+i, begin()+m, begin()+j) *)
+(*   sort    : std::sort(begin()+i, begin()+j, by (first, second) component)                                   *)
+(* `new` is the content observed afterwards.  The assignment-only algorithms are pinned down completely.      *)
+(* reverse / rotate / sort exchange and move whole elements (swap and move of proxies, which the property does *)
+(* not name one by one): the lockstep clause under permutation is what is demanded of them - the pairs of the  *)
+(* segment travel together (the new segment is a permutation of the old PAIRS), nothing outside [i, j) and     *)
+(* nothing in the other object changes.  (That the permutation is the algorithm's is checked as advisory.)     *)
+AlgoExactKinds == {"copy", "copybwd"}
+AlgoPermKinds  == {"reverse", "rotate", "sort"}
+AlgoKinds      == AlgoExactKinds \cup AlgoPermKinds
+SegRev(s, i, j)    == [x \in 1..Len(s) |-> IF x > i /\ x <= j THEN s[i + j + 1 - x] ELSE s[x]]
+SegRot(s, i, m, j) == [x \in 1..Len(s) |-> IF x > i /\ x <= j THEN s[i + 1 + (((x - 1 - i) + (m - i)) % (j - i))] ELSE s[x]]
+CopyInto(s, t, i, j, m) == [x \in 1..Len(s) |-> IF x > m /\ x <= m + (j - i) THEN t[i + (x - m)] ELSE s[x]]
+PairLE(p, q) == p[1] < q[1] \/ (p[1] = q[1] /\ p[2] <= q[2])
+RECURSIVE InsertSorted(_, _)
+InsertSorted(s, e) == IF s = <<>> THEN <<e>> ELSE IF PairLE(e, Head(s)) THEN <<e>> \o s ELSE <<Head(s)>> \o InsertSorted(Tail(s), e)
+RECURSIVE PairSortSeq(_)
+PairSortSeq(s) == IF s = <<>> THEN <<>> ELSE InsertSorted(PairSortSeq(Tail(s)), Head(s))
+SegSort(s, i, j) == LET srt == PairSortSeq(SubSeq(s, i + 1, j)) IN [x \in 1..Len(s) |-> IF x > i /\ x <= j THEN srt[x - i] ELSE s[x]]
+Occ(s, e) == Cardinality({x \in 1..Len(s) : s[x] = e})
+IsPermOf(s, t) == Len(s) = Len(t) /\ \A x \in 1..Len(s) : Occ(s, s[x]) = Occ(t, s[x])
+AlgoExact(k, alg, i, m, j) == LET s == obj[k] IN
+    CASE alg = "copy"    -> CopyInto(s, obj[Other(k)], i, j, m)
+      [] alg = "copybwd" -> CopyInto(s, s, i, j, i + m)
+      [] alg = "reverse" -> SegRev(s, i, j)
+      [] alg = "rotate"  -> SegRot(s, i, m, j)
+      [] alg = "sort"    -> SegSort(s, i, j)
+AlgoOK(k, alg, i, m, j) == LET n == Len(obj[k]) IN
+    CASE alg = "copy"    -> i <= j /\ j <= Len(obj[Other(k)]) /\ m + (j - i) <= n
+      [] alg = "copybwd" -> i <= j /\ j + m <= n
+      [] alg = "rotate"  -> i <= m /\ m <= j /\ j <= n
+      [] OTHER           -> i <= j /\ j <= n /\ m = 0
+Algo(k, alg, i, m, j, new) ==
+    /\ alg \in AlgoKinds /\ HasFwd /\ HasAssign
+    /\ AlgoOK(k, alg, i, m, j)
+    /\ IF alg \in AlgoExactKinds THEN new = AlgoExact(k, alg, i, m, j)
+       ELSE /\ Len(new) = Len(obj[k])
+            /\ \A x \in 1..Len(new) : (x <= i \/ x > j) => new[x] = obj[k][x]
+            /\ IsPermOf(SubSeq(new, i + 1, j), SubSeq(obj[k], i + 1, j))
+    /\ Do("Algo", k, [alg |-> alg, i |-> i, m |-> m, j |-> j], new, Void)
+
 (* max_size() is at least size() (values >= 2^30 are logged as 2^30) *)
 MaxSize(k, m) == m >= Len(obj[k]) /\ Obs("MaxSize", k, NoArg, Ok(<<m>>))
 
@@ -280,6 +325,10 @@ NextT(k) ==
     \/ C("under") /\ \E which \in {"a", "b"} : Extract(k, which)
     \/ C("iter") /\ \E path \in IterPaths, i \in 0..Len(obj[k]), j \in 0..Len(obj[k]) : IterRel(k, path, i, j)
     \/ C("iter") /\ Feature(k, "fwd_iter")
+    \/ C("algo") /\ \E i \in 0..Len(obj[k]), j \in 0..Len(obj[k]) : i <= j /\
+           \/ \E alg \in {"reverse", "sort"} : Algo(k, alg, i, 0, j, AlgoExact(k, alg, i, 0, j))
+           \/ \E m \in 0..Len(obj[k]) : \E alg \in {"rotate", "copy", "copybwd"} :
+                  AlgoOK(k, alg, i, m, j) /\ Algo(k, alg, i, m, j, AlgoExact(k, alg, i, m, j))
 
 NextO(k) == \E s \in OtherInit : Len(s) \in (IF IsVec THEN Sizes ELSE {cfg.n}) /\ Do("Set", k, [es |-> s], s, Void)
 
@@ -289,7 +338,7 @@ Next == (\E k \in Targets : NextT(k)) \/ (\E k \in {1, 2} \ Targets : NextO(k))
 (* constraint writes each transition (pre-state, call) as one JSON line on TLC's output.    *)
 (* Calls that do not involve the other object are written once (other object as default-    *)
 (* constructed), copy/move calls for every content the other object is given.               *)
-PairOps == {"CtorCopy", "CopyAssign", "CtorMove", "MoveAssign", "Rel"}
+PairOps == {"CtorCopy", "CopyAssign", "CtorMove", "MoveAssign", "Rel", "Algo"}
 Emit == (last'.op \in EmitOps /\ (last'.op \in PairOps \/ pre'[2] = Fill(N0, Dflt))) =>
             PrintT("@E@" \o ToJson([c |-> cfg, p |-> pre', l |-> [op |-> last'.op, k |-> last'.k, a |-> last'.a]]))
 
@@ -338,6 +387,17 @@ WriteLaw == [][last'.op \in {"Write", "WriteUnder"} =>
                     /\ Len(obj'[k]) = Len(obj[k])
                     /\ \A m \in 1..Len(obj[k]) : m # i + 1 => obj'[k][m] = obj[k][m]
                     /\ obj'[Other(k)] = obj[Other(k)]]_vars
+(* an algorithm keeps the size, the other object and everything outside its segment; its segment is a permutation of the
+   old pairs (reverse, rotate, sort) - both components of every element moved together *)
+AlgoLaw == [][last'.op = "Algo" =>
+                LET k == last'.k  i == last'.a.i  j == last'.a.j IN
+                  /\ Len(obj'[k]) = Len(obj[k]) /\ obj'[Other(k)] = obj[Other(k)]
+                  /\ (last'.a.alg \in AlgoPermKinds =>
+                        /\ IsPermOf(SubSeq(obj'[k], i + 1, j), SubSeq(obj[k], i + 1, j))
+                        /\ IsPermOf(CompA(SubSeq(obj'[k], i + 1, j)), CompA(SubSeq(obj[k], i + 1, j)))
+                        /\ \A x \in 1..Len(obj[k]) : (x <= i \/ x > j) => obj'[k][x] = obj[k][x])
+                  /\ (last'.a.alg = "sort" => \A x \in (i + 1)..(j - 1) : PairLE(obj'[k][x], obj'[k][x + 1]))
+                  /\ (last'.a.alg = "reverse" => SegRev(obj'[k], i, j) = obj[k])]_vars
 (* elements created by default construction are missing / zero *)
 DefaultLaw == [][last'.op \in {"CtorDefault", "CtorN"} =>
                   \A i \in 1..Len(obj'[last'.k]) : obj'[last'.k][i] = <<0, 0>>]_vars
